@@ -521,24 +521,25 @@ def cases(rng, tier, worker, nworkers):
 
 # ------------------------------------------------------------------ reporting
 
-def _leaky_step(case, impl):
-    """index of the first constructor call that passes, for a Selector without check_on_set, a value that is
-    not among the objects the class Parameter lists at that moment"""
+def _leaky_steps(case, impl):
+    """indices of the constructor calls that pass, for a Selector without check_on_set, a value that is not
+    among the objects the class Parameter lists at that moment"""
+    out = []
     if not isinstance(impl, dict) or 'steps' not in impl:
-        return None
+        return out
     prev = {'classes': []}
     for n, (op, st) in enumerate(zip(case['ops'], impl['steps'])):
         if op['op'] == 'mkInst' and op['k'] < len(prev['classes']):
             row = dict((x, p) for x, p in prev['classes'][op['k']])
             for x, v in op['kwargs']:
                 p = row.get(x)
-                if p and p['kind'] == 'selector' and not p['cos'] and not isinstance(v, list):
+                if p and p['kind'] == 'selector' and not p['cos'] and not isinstance(v, list) and v is not None:
                     objs = next(c['v'] for s, c in p['ms'] if s == 'objects')
-                    if v not in objs:
-                        return n
+                    if v not in objs and n not in out:
+                        out.append(n)
         if st['err'] != 'NoInstance':
             prev = st
-    return None
+    return out
 
 
 def tags(case, impl):
@@ -546,7 +547,7 @@ def tags(case, impl):
     if isinstance(impl, dict) and 'steps' in impl:
         t.append(f'classes={len(impl["steps"][-1]["classes"])}' if impl['steps'] else 'classes=0')
         t.append(f'insts={min(len(impl["steps"][-1]["insts"]), 4)}' if impl['steps'] else 'insts=0')
-        if _leaky_step(case, impl) is not None:
+        if _leaky_steps(case, impl):
             t.append('leaky-ctor-kwarg')
         for op in case['ops']:
             if op['op'] == 'mkClass':
@@ -619,7 +620,7 @@ def classify(case, impl, fail):
             if st['err'] != 'NoInstance':
                 live += 1
             if live == n:
-                if _leaky_step(case, impl) == idx:
+                if idx in _leaky_steps(case, impl):
                     return 'ctor-kwarg-appended-to-class-objects'
                 return None
     return None
